@@ -197,7 +197,7 @@ def main(argv):
     summary = dict(mutants=len(results), valid=len(valid), killed=len(killed), not_killed=[r["name"] + ":" + r["property"] for r in survived],
                    wall_s=round(time.time() - t0, 1), results=results)
     # merge with an earlier matrix when only a subset was run
-    path = os.path.join(ROOT, "evidence", "selftest.json")
+    path = os.environ.get("CLV_SELFTEST_OUT", os.path.join(ROOT, "evidence", "selftest.json"))
     if (words or seeded_only) and os.path.exists(path):
         old = json.load(open(path))
         keep = [r for r in old.get("results", []) if (r["name"], r["property"]) not in {(x["name"], x["property"]) for x in results}]
